@@ -12,7 +12,7 @@ C={
       note="trusted: ref.Eval for f and s; selections of the root and Unspecified predicates are skipped and counted", ref="DESIGN.md 6/C03"),
  "C11": dict(tech="property-based testing (rapid) with grammar, mutation and random-bytes generators over all format pairs; validity oracle (no panic, no hang); sample re-run through the binary",
       text="generated (expression, input, input format, output format, mode, format and printer flags) cases must end in a result or an error: recovered panics, fatal errors of the binary and watchdog hits (20 s, confirmed at 120 s) are violations. Absence of crash sites is not established; counts and outcome classes are in the evidence.",
-      note="in-process recover() + binary sample; generator bound: sequence indices <= 255 next to dynamic indexing (also in properties input keys), repeat counts capped, no fan-out next to a self-evaluating eval (resource exhaustion by an explicitly requested size is not the crash class); one open known finding (cyclic alias) is judged in a memory-limited subprocess", ref="DESIGN.md 6/C11"),
+      note="in-process recover() + binary sample; generator bound: sequence indices <= 255 next to dynamic indexing (also in properties input keys), repeat counts capped, no fan-out next to a self-evaluating eval (resource exhaustion by an explicitly requested size is not the crash class); inputs with a self-containing alias (rejected by the decoder since fix 9bdc188) are judged in a memory-limited subprocess, because losing that fix means unbounded recursion", ref="DESIGN.md 6/C11"),
 }
 m={"version":1,"setup_cmd":"./check setup",
  "hooks":{"guard":"verif","enable":"go build -tags verif (the driver builds the yq binary and the test binaries with -tags verif)","baseline_off_cmd":"cd /repo && go test -vet=off -count=1 ./...","source_commits":[],"add_only":True},
